@@ -308,3 +308,175 @@ def f_selects(E, node):
             sv = E.binop(ast.Sub(), sv, sh)
         parts.append(z3.ForAll([k], z3.Implies(z3.And(k >= 0, k < m), zbool(same(E, o, sv)))))
     return Z(z3.And(*parts), BOOL)
+
+
+def _rows_chain(out, src):
+    """provenance of `out` as successive boolean-mask selections starting at `src` (a table or a 1-D array): list of
+    (g, cnt), outermost first; None when `out` was not obtained from `src` that way"""
+    chain = []
+    f = out
+    for _ in range(8):
+        if f is src or (f.ident == src.ident and (isinstance(f, Frame) or (str(f.off) == str(src.off) and f.stride == src.stride
+                                                                          and str(f.n) == str(src.n)))):
+            return chain
+        meta = getattr(f, 'meta', None) or {}
+        if isinstance(f, Frame) and 'rows_of' in meta:
+            parent, g, cnt = meta['rows_of']
+        elif isinstance(f, Arr) and 'compress_of' in meta:
+            parent, _, g, cnt = meta['compress_of']
+        else:
+            return None
+        chain.append((g, cnt))
+        f = parent
+    return None
+
+
+def _sb_parts(E, node):
+    out = E.eval(node.args[0])
+    src = E.eval(node.args[1])
+    lo = E.eval(node.args[2])
+    hi = E.eval(node.args[3])
+    shift_cols = E.eval(node.args[4]) if len(node.args) > 4 else ()
+    shift = E.eval(node.args[5]) if len(node.args) > 5 else 0
+    if isinstance(shift_cols, PyList):
+        shift_cols = tuple(shift_cols.items)
+    if isinstance(out, Frame) != isinstance(src, Frame) or not isinstance(out, (Frame, Arr)) or not isinstance(src, (Frame, Arr)):
+        raise Unsupported('selects_between needs two tables or two arrays')
+    chain = _rows_chain(out, src)
+    proven = chain is not None
+    if chain is None:
+        # no provenance (the clause is being assumed about a callee's result): an unknown index map
+        chain = [(z3.Function(fresh_name('sb.g'), z3.IntSort(), z3.IntSort()),
+                  z3.Function(fresh_name('sb.c'), z3.IntSort(), z3.IntSort()))]
+    n = src.n if not isinstance(src.n, int) else z3.IntVal(src.n)
+    m = out.n if not isinstance(out.n, int) else z3.IntVal(out.n)
+
+    def G(k):
+        for g, _ in chain:
+            k = g(k)
+        return k
+
+    def C(i):
+        for _, cnt in reversed(chain):
+            i = cnt(i)
+        return i
+    sh = lift(shift)
+    cols = []
+    if isinstance(src, Arr):
+        def eq1(k):
+            return zbool(same(E, E.rd(out, k), E.rd(src, G(k))))
+        cols.append(('elements', eq1))
+        same_cols = True
+    else:
+        same_cols = set(out.cols) == set(src.cols)
+    for c, a in (src.cols.items() if isinstance(src, Frame) else ()):
+        if c not in out.cols:
+            continue
+
+        def eq(k, c=c, a=a):
+            o = E.rd(out.cols[c], k)
+            sv = E.st.heap[a.ident](a.off + G(k) * a.stride)
+            if c in shift_cols:
+                sv = E.binop(ast.Sub(), sv, sh)
+            return zbool(same(E, o, sv))
+        cols.append((c, eq))
+    return dict(chain=chain, proven=proven, n=n, m=m, G=G, C=C, cols=cols, same_cols=same_cols,
+                lo=lambda i: zbool(E.rd(lo, i)), hi=lambda i: zbool(E.rd(hi, i)))
+
+
+@form('selects_between')
+def f_selects_between(E, node):
+    """selects_between(out, src, lo, hi[, shift_cols, shift]): table `out` consists of rows of `src`, in their original
+    order and each at most once, with all values equal (the columns named in shift_cols reduced by `shift`); every row
+    whose `lo` entry is True is among them and every row among them has a True `hi` entry.  (C18: every cycle entirely
+    inside the window, none entirely outside.)  Proved through the witness index map that the code's successive mask
+    selections compose to; no canonical enumeration is needed, so two-stage filtering needs no induction."""
+    P = _sb_parts(E, node)
+    n, m, G, C = P['n'], P['m'], P['G'], P['C']
+    k = z3.Int(fresh_name('sb.k'))
+    k2 = z3.Int(fresh_name('sb.k'))
+    i = z3.Int(fresh_name('sb.i'))
+    parts = [z3.BoolVal(P['same_cols'])]
+    parts.append(z3.ForAll([k], z3.Implies(z3.And(k >= 0, k < m), z3.And(G(k) >= 0, G(k) < n, P['hi'](G(k))))))
+    parts.append(z3.ForAll([k, k2], z3.Implies(z3.And(k >= 0, k < k2, k2 < m), G(k) < G(k2))))
+    parts.append(z3.ForAll([i], z3.Implies(z3.And(i >= 0, i < n, P['lo'](i)), z3.And(C(i) >= 0, C(i) < m, G(C(i)) == i))))
+    for c, eq in P['cols']:
+        parts.append(z3.ForAll([k], z3.Implies(z3.And(k >= 0, k < m), eq(k))))
+    return Z(z3.And(*parts), BOOL)
+
+
+PROVERS = {}
+
+
+def prover(name):
+    def deco(f):
+        PROVERS[name] = f
+        return f
+    return deco
+
+
+@prover('selects_between')
+def prove_selects_between(E, node, name, note):
+    """the same statement, discharged conjunct by conjunct for arbitrary (fresh) indices from explicit instances of the
+    selection-map axioms (quantifier-free up to the caller's own quantified requires): returns False when the result has
+    no row-selection provenance, and the clause is then proved as one ordinary obligation"""
+    from .engine import _has_quant
+    E.spec_mode += 1
+    try:
+        P = _sb_parts(E, node)
+    finally:
+        E.spec_mode -= 1
+    if not P['proven']:
+        return False
+    ghost = E.st.ghost
+    insts = []
+    for g, cnt in P['chain']:
+        found = None
+        for key, inst in ghost.get('cmap_inst', {}).items():
+            if ghost[key][1].eq(g):
+                found = inst
+                break
+        if found is None:
+            return False
+        insts.append(found)
+    cmap_ax = set()
+    for axs in ghost.get('cmap_axioms', {}).values():
+        for a in axs:
+            cmap_ax.add(a.get_id())
+    other_q = [a for a in E.assumptions if _has_quant(a) and a.get_id() not in cmap_ax]
+    n, m, G, C = P['n'], P['m'], P['G'], P['C']
+    chain = P['chain']
+
+    def sel_insts(k):
+        out = []
+        for (g, _), inst in zip(chain, insts):
+            out.append(inst['sel'](k))
+            k = g(k)
+        return out
+
+    def hit_insts(i):
+        out = []
+        for (_, cnt), inst in reversed(list(zip(chain, insts))):
+            out.append(inst['hit'](i))
+            out.append(inst['rec'](i))
+            i = cnt(i)
+        return out
+    k = z3.Int(fresh_name('sb.k'))
+    k2 = z3.Int(fresh_name('sb.k'))
+    i = z3.Int(fresh_name('sb.i'))
+    E.oblige('ensures', z3.BoolVal(P['same_cols']), E.fdef, name=name + '.columns', note=note)
+    E.oblige_focused('ensures', other_q + sel_insts(k) + [k >= 0, k < m],
+                     z3.And(G(k) >= 0, G(k) < n, P['hi'](G(k))), E.fdef, name=name + '.none-outside', assume=False)
+    inc = []
+    a, b = k, k2
+    for (g, _), inst in zip(chain, insts):
+        inc.append(inst['inc'](a, b))
+        a, b = g(a), g(b)
+    E.oblige_focused('ensures', other_q + sel_insts(k) + sel_insts(k2) + inc + [k >= 0, k < k2, k2 < m],
+                     G(k) < G(k2), E.fdef, name=name + '.in-order', assume=False)
+    E.oblige_focused('ensures', other_q + hit_insts(i) + [i >= 0, i < n, P['lo'](i)],
+                     z3.And(C(i) >= 0, C(i) < m, G(C(i)) == i), E.fdef, name=name + '.all-inside', assume=False)
+    for c, eq in P['cols']:
+        E.oblige_focused('ensures', other_q + sel_insts(k) + [k >= 0, k < m], eq(k), E.fdef,
+                         name=name + '.values:' + c, assume=False)
+    return True
